@@ -57,5 +57,11 @@ func Seeds() []*Node {
 		Let("y", three, LetPat("{1: x}", []string{"x"}, Lit("{1: 2}"), Bin("-", x, y))),
 		Arrow("=>", Lit("{(a: 1, b: 2), (a: 3, b: 5)}"), FnPat("(a: x, b: y)", []string{"x", "y"}, Bin("-", y, x))),
 		App(FnPat("[x, y]", []string{"x", "y"}, Bin("-", x, y)), Lit("[3, 1]")),
+		// expression patterns read the scope enclosing the binder, whichever way the binder is spelled
+		Let("x", one, LetPat("[(x), y]", []string{"y"}, Lit("[1, 2]"), y).WithPatFree("x")),
+		Let("x", one, App(FnPat("[(x), y]", []string{"y"}, add(x, y)).WithPatFree("x"), Lit("[1, 2]"))),
+		Let("x", two, Arrow("=>", Lit("{[2, 3], [2, 5]}"), FnPat("[(x), y]", []string{"y"}, y).WithPatFree("x"))),
+		Let("x", one, LetPat("(a: (x), b: y)", []string{"y"}, Lit("(a: 1, b: 2)"), add(x, y)).WithPatFree("x")),
+		Let("x", one, Let("f", FnPat("[(x), ...t]", []string{"t"}, t).WithPatFree("x"), Let("x", two, App(f, Lit("[1, 2, 3]"))))),
 	}
 }
